@@ -298,7 +298,16 @@ def canon_clauses(cnf):
     return sorted({tuple(sorted(set((int(n), bool(b)) for n, b in cl))) for cl in cnf})
 
 
-def tseitin_stage(ctx):
+def form_term(x, T, atoms):
+    """inverse of form_sexp"""
+    if x[0] == "atom":
+        return atoms[int(x[1])]
+    if x[0] == "not":
+        return T.Not(form_term(x[1], T, atoms))
+    return {"and": T.And, "or": T.Or, "imp": T.Implies, "iff": T.Eq}[x[0]](form_term(x[1], T, atoms), form_term(x[2], T, atoms))
+
+
+def tseitin_stage(ctx, only=None):
     from kernel import term as T, theory, report
     from kernel.type import BoolType
     from logic import basic
@@ -311,6 +320,8 @@ def tseitin_stage(ctx):
     lines, impl_cnfs = [], []
     fixed = [atoms[0], T.And(atoms[0], atoms[0]), T.Eq(atoms[0], atoms[1]), T.Not(T.Not(atoms[0])),
              T.Or(T.And(atoms[0], T.Not(atoms[0])), atoms[1]), T.Implies(T.And(atoms[0], atoms[1]), T.And(atoms[0], atoms[1]))]
+    if only is not None:
+        fixed, n = [form_term(x, T, atoms) for x in only], 0
     for i in range(n + len(fixed)):
         if i < len(fixed):
             f = fixed[i]
@@ -329,16 +340,16 @@ def tseitin_stage(ctx):
             raise
         except Exception as e:  # noqa
             ctx.violation("tseitin:raise:%s" % type(e).__name__, "tseitin.encode / check_proof raised %s on %s" % (type(e).__name__, f),
-                          {"formula": str(f), "error": repr(e)})
+                          {"formula": str(f), "form": form_sexp(f, atom_ids), "error": repr(e)})
             continue
         if th != pt.th or len(rpt.gaps) > 0:
-            ctx.violation("tseitin:not-checked:%s" % f, "Tseitin theorem for %s not accepted by the checker" % f, {"formula": str(f)})
+            ctx.violation("tseitin:not-checked:%s" % f, "Tseitin theorem for %s not accepted by the checker" % f, {"formula": str(f), "form": form_sexp(f, atom_ids)})
             continue
         # Semantic oracle: hyps are As (x_i <-> ...) and F; conclusion is the CNF.
         try:
             cnf = tseitin.convert_cnf(pt.prop)
         except Exception as e:  # noqa
-            ctx.violation("tseitin:not-cnf:%s" % f, "conclusion of Tseitin theorem for %s is not a CNF" % f, {"formula": str(f), "prop": str(pt.prop)})
+            ctx.violation("tseitin:not-cnf:%s" % f, "conclusion of Tseitin theorem for %s is not a CNF" % f, {"formula": str(f), "form": form_sexp(f, atom_ids), "prop": str(pt.prop)})
             continue
         # correspondence with the model's clause set: same numbering x1..xn of the subterms
         try:
@@ -360,14 +371,14 @@ def tseitin_stage(ctx):
             ctx.count("tseitin:formula-%s" % ("sat" if f_sat else "unsat"))
             if c_sat != f_sat:
                 ctx.violation("tseitin:not-equisat:%s" % f, "Tseitin CNF of %s is %ssatisfiable but the formula is %ssatisfiable" % (f, "" if c_sat else "un", "" if f_sat else "un"),
-                              {"formula": str(f), "cnf": cnf})
+                              {"formula": str(f), "form": form_sexp(f, atom_ids), "tseitin_cnf": cnf})
         # the sequent itself must be valid: every assignment satisfying all hyps satisfies the CNF
         allv = sorted(set(names) | set(f_atoms) | {v.name for h in pt.hyps for v in h.get_vars()})
         if len(allv) <= 16:
             for bits in itertools.product((False, True), repeat=len(allv)):
                 a = dict(zip(allv, bits))
                 if all(eval_form(h, a) for h in pt.hyps) and not all(any(a[nm] == b for nm, b in cl) for cl in cnf):
-                    ctx.violation("tseitin:invalid-sequent:%s" % f, "Tseitin theorem for %s is not valid" % f, {"formula": str(f), "assignment": a})
+                    ctx.violation("tseitin:invalid-sequent:%s" % f, "Tseitin theorem for %s is not valid" % f, {"formula": str(f), "form": form_sexp(f, atom_ids), "assignment": a})
                     break
     ctx.sample({"tseitin_formula": str(f)})
     out = ctx.lean_driver(EXE, lines) if lines else []
@@ -720,6 +731,8 @@ def replay(ctx, rp):
     if "cnf" in r:
         cnf = [[(int(n), bool(b)) for n, b in cl] for cl in r["cnf"]]
         check_cases(ctx, sat, [cnf], "replay", limit=60)
+    if "form" in r:
+        tseitin_stage(ctx, only=[r["form"]])
     for v in ctx.violations:
         print("still fails:", v[1])
     return bool(ctx.violations)
